@@ -2,7 +2,11 @@ package routing
 
 import (
 	"fmt"
+	"io"
+	stdlog "log"
 	"strings"
+
+	restful "github.com/emicklei/go-restful/v3"
 
 	"verifharness/internal/drv"
 	"verifharness/internal/rng"
@@ -30,6 +34,10 @@ func (c *Case) Lines() []string { return []string{c.CfgLine, c.ReqLine} }
 
 // Run draws nCfg tables with perCfg requests each, executes the real code and the driver.
 func Run(seed uint64, nCfg, perCfg int, o Opts) ([]*Case, error) {
+	if o.Trace {
+		restful.TraceLogger(stdlog.New(io.Discard, "", 0)) // sets the trace logger and enables tracing
+		defer restful.EnableTracing(false)
+	}
 	base := rng.New(seed)
 	var cases []*Case
 	var lines []string
